@@ -116,6 +116,8 @@ impl Matcher {
         let cost_offsets = self.compute_cost_offsets(&transactions)?;
         let mut future_consumption: HashMap<usize, Decimal> = HashMap::new();
         let mut same_day_reservations: HashMap<(NaiveDate, String), Decimal> = HashMap::new();
+        // Shares held per security: acquisitions less disposals to date, rescaled by splits.
+        let mut held: HashMap<String, Decimal> = HashMap::new();
 
         // Process transactions in order, grouped by date
         // Buys are added before same-day sells for matching; cost offsets already applied.
@@ -138,6 +140,8 @@ impl Matcher {
                 } = &tx.operation
                 {
                     let idx = i + offset;
+                    let holding = held.entry(tx.ticker.clone()).or_default();
+                    *holding += *amount;
                     let reserved = future_consumption.remove(&idx).unwrap_or(Decimal::ZERO);
                     if reserved > *amount {
                         return Err(CgtError::InvalidTransaction(format!(
@@ -160,7 +164,7 @@ impl Matcher {
 
             // Process all sells (same-day, B&B, then S104)
             for (offset, tx) in transactions[i..day_end].iter().enumerate() {
-                if matches!(tx.operation, Operation::Sell { .. }) {
+                if let Operation::Sell { amount, .. } = &tx.operation {
                     let idx = i + offset;
                     self.process_sell(
                         tx,
@@ -170,6 +174,18 @@ impl Matcher {
                         &mut future_consumption,
                         &mut same_day_reservations,
                     )?;
+
+                    // A disposal matched with a later acquisition (30-day rule) still reduces
+                    // the holding: the repurchase does not legitimise a later disposal of
+                    // shares that are no longer held.
+                    let holding = held.entry(tx.ticker.clone()).or_default();
+                    *holding -= *amount;
+                    if *holding < Decimal::ZERO {
+                        return Err(CgtError::InvalidTransaction(format!(
+                            "SELL {} on {}: disposals to date exceed acquisitions to date by {} shares",
+                            tx.ticker, tx.date, -*holding
+                        )));
+                    }
                 }
             }
 
@@ -183,6 +199,13 @@ impl Matcher {
             // Process splits/unsplits
             for tx in &transactions[i..day_end] {
                 self.process_corporate_action(tx)?;
+                if let Some(holding) = held.get_mut(&tx.ticker) {
+                    match &tx.operation {
+                        Operation::Split { ratio } => *holding *= *ratio,
+                        Operation::Unsplit { ratio } => *holding /= *ratio,
+                        _ => {}
+                    }
+                }
             }
 
             i = day_end;
